@@ -1,2 +1,167 @@
 (* Props/C10.v — under construction *)
 From SV Require Import Base.Prelude.
+(* Property C10, algebraic part: conjugation and adjoint of fermionic arrays
+   (Model/Fermi.v: f_conj x pp pd, f_dagger x pd; pd = the dual-leg option).
+   Statements only; proofs and the definitions below live in Proofs/ConjProofs.v.
+
+     value x s        the block stored for sector s with the pending sign applied
+                      (lookup in `f_value x`)
+     feq x y          `f_value x = f_value y` (same index tables, charge, sectors in the
+                      same order, same block data) and the same odd-position labels
+     feq_sign m x y   the same with every block of y negated when m = true
+     conj_sign x pp pd s   the sign conj puts on sector s: reversal sign (pp), number of odd
+                      charges on bra legs (pd), and the odd global sign
+     axes_where d ixs the axes whose index satisfies d (the list f_conj / f_dagger build)
+
+   What is TRUE for the dual-leg option (determined by evaluation first, then proved):
+   conj and dagger are involutions for pd = false; for pd = true the double conjugate and
+   the double adjoint are (-1)^{parity x} x — NOT x when the array is odd
+   (ConjProofs.ex_eval_1 exhibits odd Z2 / U1 arrays with result -x); with mixed options the
+   sign flip of the legs the option acted on remains.  "adjoint = conjugate followed by the
+   fermionic reversal of the axes" holds for BOTH values of pd.
+   The norm statements (contracting x with its conjugate) are not in this file.
+
+   All theorems: every rank, every index table, every symmetry with GroupLaws, every ring
+   with the listed ring laws (ZRing and GRing have them: the ZRing_ / GRing_ lemmas of ConjProofs).
+   `wf_array` is the executable validity predicate of C01 (Model/Wf.v). *)
+From SV Require Import Base.Sym Base.Tensor Gen.PhasePerm Model.Sectors Model.Array Model.Arith Model.Wf
+  Model.Fermi Proofs.ConjProofs.
+
+Theorem C10_oddpos_dag_involutive :
+  forall l : list fop, oddpos_dag (oddpos_dag l) = l.
+Proof. exact oddpos_dag_involutive. Qed.
+
+(* the generated Koszul sign: perm = None is the sign of the full reversal *)
+Theorem C10_phase_none_is_reversal :
+  forall par : list Z, Forall (fun p => p = 0 \/ p = 1) par ->
+  calc_phase_permutation par None =
+  calc_phase_permutation par (Some (rev (zrange (Z.of_nat (length par))))).
+Proof. exact phase_none_eq_reversal. Qed.
+
+Theorem C10_perm_minus_reversal :
+  forall (G : Symmetry), GroupLaws G -> forall s : list (C G),
+  Forall (fun c => valid G c = true) s ->
+  perm_minus G s (Some (rev_axes (length s))) = perm_minus G s None.
+Proof. exact perm_minus_rev. Qed.
+
+(* feq / feq_sign are statements about the stored values *)
+Theorem C10_feq_value :
+  forall (G : Symmetry) (R : Ring) (x y : farray G R),
+  feq G R x y -> forall s, value G R x s = value G R y s.
+Proof. exact feq_value. Qed.
+
+Theorem C10_feq_sign_value :
+  forall (G : Symmetry) (R : Ring) (minus : bool) (x y : farray G R),
+  feq_sign G R minus x y ->
+  forall s, value G R x s = option_map (fun t => if minus then tneg R t else t) (value G R y s).
+Proof. exact feq_sign_value. Qed.
+
+(* conjugating twice returns the original (default dual-leg option, either pp) *)
+Theorem C10_conj_conj :
+  forall (G : Symmetry), GroupLaws G -> forall (R : Ring),
+  (forall a, rconj R (rconj R a) = a) ->
+  forall (x : farray G R) (pp : bool),
+  valid G (charge G R (fbase G R x)) = true -> NoDup (fsectors G R x) ->
+  feq G R (f_conj G R (f_conj G R x pp false) pp false) x.
+Proof. exact conj_conj. Qed.
+
+(* with the dual-leg option: exactly the parity sign *)
+Theorem C10_conj_conj_dual_option :
+  forall (G : Symmetry), GroupLaws G -> forall (R : Ring),
+  (forall a, rconj R (rconj R a) = a) -> (forall a, rneg R (rneg R a) = a) ->
+  forall (x : farray G R) (pp : bool),
+  wf_array G R (fbase G R x) = true ->
+  feq_sign G R (fparity G R x) (f_conj G R (f_conj G R x pp true) pp true) x.
+Proof. exact conj_conj_pd_wf. Qed.
+
+Theorem C10_conj_conj_mixed_tf :
+  forall (G : Symmetry), GroupLaws G -> forall (R : Ring),
+  (forall a, rconj R (rconj R a) = a) ->
+  forall (x : farray G R) (pp : bool),
+  valid G (charge G R (fbase G R x)) = true -> NoDup (fsectors G R x) ->
+  feq G R (f_conj G R (f_conj G R x pp true) pp false)
+          (f_phase_flip G R x (axes_where G (idual G) (indices G R (fbase G R x)))).
+Proof. exact conj_conj_mixed_tf. Qed.
+
+Theorem C10_conj_conj_mixed_ft :
+  forall (G : Symmetry), GroupLaws G -> forall (R : Ring),
+  (forall a, rconj R (rconj R a) = a) ->
+  forall (x : farray G R) (pp : bool),
+  valid G (charge G R (fbase G R x)) = true -> NoDup (fsectors G R x) ->
+  feq G R (f_conj G R (f_conj G R x pp false) pp true)
+          (f_phase_flip G R x (axes_where G (fun ix => negb (idual G ix)) (indices G R (fbase G R x)))).
+Proof. exact conj_conj_mixed_ft. Qed.
+
+(* the adjoint equals the conjugate followed by the fermionic reversal of axes, for every
+   setting of the dual-leg option *)
+Theorem C10_dagger_eq_conj_transpose :
+  forall (G : Symmetry), GroupLaws G -> forall (R : Ring) (x : farray G R) (pd : bool),
+  wf_array G R (fbase G R x) = true ->
+  feq G R (f_dagger G R x pd)
+          (f_transpose G R (f_conj G R x true pd) (rev_axes (ndim G R (fbase G R x))) true).
+Proof. exact dagger_eq_conj_transpose_wf. Qed.
+
+(* taking the adjoint twice returns the original *)
+Theorem C10_dagger_dagger :
+  forall (G : Symmetry), GroupLaws G -> forall (R : Ring),
+  (forall a, rconj R (rconj R a) = a) -> rconj R (r0 R) = r0 R ->
+  forall (x : farray G R),
+  wf_array G R (fbase G R x) = true ->
+  feq G R (f_dagger G R (f_dagger G R x false) false) x.
+Proof. exact dagger_dagger_wf. Qed.
+
+Theorem C10_dagger_dagger_dual_option :
+  forall (G : Symmetry), GroupLaws G -> forall (R : Ring),
+  (forall a, rconj R (rconj R a) = a) -> (forall a, rneg R (rneg R a) = a) -> rconj R (r0 R) = r0 R ->
+  forall (x : farray G R),
+  wf_array G R (fbase G R x) = true ->
+  feq_sign G R (fparity G R x) (f_dagger G R (f_dagger G R x true) true) x.
+Proof. exact dagger_dagger_pd_wf. Qed.
+
+(* the blocks of the conjugate *)
+Theorem C10_conj_value :
+  forall (G : Symmetry), GroupLaws G -> forall (R : Ring),
+  (forall a, rneg R (rneg R a) = a) -> (forall a, rconj R (rneg R a) = rneg R (rconj R a)) ->
+  forall (x : farray G R) (pp pd : bool) (s : list (C G)),
+  valid G (charge G R (fbase G R x)) = true -> NoDup (fsectors G R x) ->
+  value G R (f_conj G R x pp pd) s =
+  option_map (fun t => if conj_sign G R x pp pd s then tneg R (tconj R t) else tconj R t) (value G R x s).
+Proof. exact conj_value. Qed.
+
+(* bookkeeping used by the norm statements *)
+Theorem C10_conj_bookkeeping :
+  forall (G : Symmetry), GroupLaws G -> forall (R : Ring) (x : farray G R) (pp pd : bool),
+  valid G (charge G R (fbase G R x)) = true ->
+  duals G R (fbase G R (f_conj G R x pp pd)) = map negb (duals G R (fbase G R x)) /\
+  indices G R (fbase G R (f_conj G R x pp pd)) = map (iconj G) (indices G R (fbase G R x)) /\
+  charge G R (fbase G R (f_conj G R x pp pd)) = sign G (charge G R (fbase G R x)) true /\
+  fparity G R (f_conj G R x pp pd) = fparity G R x /\
+  foddpos G R (f_conj G R x pp pd) = rev (map fop_dag (foddpos G R x)) /\
+  fsectors G R (f_conj G R x pp pd) = fsectors G R x.
+Proof. exact conj_bookkeeping. Qed.
+
+Theorem C10_dagger_bookkeeping :
+  forall (G : Symmetry), GroupLaws G -> forall (R : Ring) (x : farray G R) (pd : bool),
+  wf_array G R (fbase G R x) = true ->
+  indices G R (fbase G R (f_dagger G R x pd)) = rev (map (iconj G) (indices G R (fbase G R x))) /\
+  charge G R (fbase G R (f_dagger G R x pd)) = sign G (charge G R (fbase G R x)) true /\
+  fparity G R (f_dagger G R x pd) = fparity G R x /\
+  foddpos G R (f_dagger G R x pd) = rev (map fop_dag (foddpos G R x)) /\
+  fsectors G R (f_dagger G R x pd) = map (@rev _) (fsectors G R x).
+Proof. exact dagger_bookkeeping. Qed.
+
+Print Assumptions C10_oddpos_dag_involutive.
+Print Assumptions C10_phase_none_is_reversal.
+Print Assumptions C10_perm_minus_reversal.
+Print Assumptions C10_feq_value.
+Print Assumptions C10_feq_sign_value.
+Print Assumptions C10_conj_conj.
+Print Assumptions C10_conj_conj_dual_option.
+Print Assumptions C10_conj_conj_mixed_tf.
+Print Assumptions C10_conj_conj_mixed_ft.
+Print Assumptions C10_dagger_eq_conj_transpose.
+Print Assumptions C10_dagger_dagger.
+Print Assumptions C10_dagger_dagger_dual_option.
+Print Assumptions C10_conj_value.
+Print Assumptions C10_conj_bookkeeping.
+Print Assumptions C10_dagger_bookkeeping.
